@@ -1,7 +1,7 @@
 (* C03 property theorems ONLY (each closed by an already proved lemma) + assumptions. *)
-From Coq Require Import List ZArith Reals Lra Lia.
+From Coq Require Import List ZArith Reals Lra Lia String.
 From Coquelicot Require Import Coquelicot.
-From RV Require Import Common.Num Common.RealNum C03.Model C03.Proofs C03.Flow C03.Derivs C03.Series C03.Series2 C03.Solve C03.Extra.
+From RV Require Import Common.Num Common.RealNum C03.Model C03.Proofs C03.Flow C03.Derivs C03.Series C03.Series2 C03.Solve C03.Extra C03.Init Gen.WhfastInit.
 Import ListNotations.
 Open Scope R_scope.
 
@@ -307,6 +307,41 @@ Theorem C03_bisection_terminates_R : forall beta r0 eta0 zeta0 dt sf m, 0 < m ->
   (snd (fst (fst res)) <= cnt + S fuel)%nat.
 Proof. exact bisect_terminates_R. Qed.
 Print Assumptions C03_bisection_terminates_R.
+
+(* ------------------------------------------------------------------ flags established by whfast_init on every step *)
+(* whfast_init_body is REGENERATED from src/integrator_whfast.c (tools/translate_whfast_init.py, fail-closed).
+   Every path of reb_integrator_whfast_init that reaches a normal exit assigns r->gravity_ignore_terms or r->gravity:
+   the term selection of the Kepler/interaction split (which star-planet pairs the gravity routine leaves to the
+   Kepler step) is ESTABLISHED at the start of every WHFast/SABA step, never inherited from an earlier step, another
+   integrator or another coordinate system. *)
+Theorem C03_whfast_init_establishes_force_split :
+  always_assigns ["gravity_ignore_terms"%string; "gravity"%string] whfast_init_body = true.
+Proof. vm_compute. reflexivity. Qed.
+Print Assumptions C03_whfast_init_establishes_force_split.
+
+(* the only shared (struct reb_simulation) flags whfast_init writes are these two *)
+Theorem C03_whfast_init_shared_writes :
+  forallb (fun f => mem f ["gravity_ignore_terms"%string; "gravity"%string]) (shared_fields_written whfast_init_body) = true.
+Proof. vm_compute. reflexivity. Qed.
+Print Assumptions C03_whfast_init_shared_writes.
+
+(* r->gravity itself is NOT assigned on every path (with the default kernel it is inherited) ... *)
+Theorem C03_whfast_init_establishes_gravity_refuted :
+  some_path_inherits ["gravity"%string] whfast_init_body = true.
+Proof. vm_compute. reflexivity. Qed.
+Print Assumptions C03_whfast_init_establishes_gravity_refuted.
+
+(* ... but what is inherited is harmless since fix 132424f: executing the regenerated tree (conditions on kernel,
+   coordinates, gravity evaluated; every other condition taken both ways; error exits dropped) from EVERY start
+   (4 kernels x 4 coordinate systems x 7 gravity routines of rebound.h), at every normal exit
+   r->gravity == REB_GRAVITY_JACOBI only together with Jacobi coordinates: a JACOBI gravity routine left behind by a
+   kernel or a SABA corrector can no longer reach a barycentric / DH / WHDS interaction step (the former finding
+   kepler:history_stale_gravity_jacobi); the second conjunct says the statement is about a non-empty set of exits. *)
+Theorem C03_whfast_init_jacobi_gravity_only_with_jacobi_coordinates :
+  all_starts whfast_kernels whfast_coordinates gravity_routines whfast_init_body jacobi_ok = true /\
+  Nat.ltb 100 (count_exits whfast_kernels whfast_coordinates gravity_routines whfast_init_body) = true.
+Proof. vm_compute. split; reflexivity. Qed.
+Print Assumptions C03_whfast_init_jacobi_gravity_only_with_jacobi_coordinates.
 
 (* Non-vacuity: an eccentric elliptic state (e = 3/5, beta = 1) and a parabolic one (beta = 0) with
    rational G's meet every hypothesis of C03_fg_step_on_exact_orbit; C03_fg_step_closed_form and
